@@ -323,7 +323,8 @@ func init() {
 				switch c.Mode {
 				case "not-executable", "missing-interpreter", "exit1-with-output", "grandchild-holds-stdout", "sleep-beyond-deadline-child", "non-numeric-output", "empty-output", "ok", "ok-with-stderr", "text-file-busy",
 					"blank-output-space", "blank-output-tab", "blank-output-crlf", "blank-output-lines", "value-with-unit",
-					"missing", "symlink-loop", "parent-is-a-file", "name-too-long", "is-a-directory", "dangling-symlink":
+					"missing", "symlink-loop", "parent-is-a-file", "name-too-long", "is-a-directory", "dangling-symlink",
+					"many-stdout-lines", "exit3-with-many-stderr-lines", "no-shebang-sleeps-beyond-deadline":
 				default:
 					if !ctx.Thorough() {
 						continue
@@ -332,7 +333,7 @@ func init() {
 				c.TimeoutS = 2
 				c.Via = via
 				// through the wrappers garbage output must surface as an error, except for SetPwm which ignores the output
-				if via != "CmdFan.SetPwm" && (c.Mode == "non-numeric-output" || c.Mode == "empty-output" || c.Mode == "ok-multiline" || c.Mode == "huge-output" || strings.HasPrefix(c.Mode, "blank-output")) {
+				if via != "CmdFan.SetPwm" && (c.Mode == "non-numeric-output" || c.Mode == "empty-output" || c.Mode == "ok-multiline" || c.Mode == "huge-output" || c.Mode == "many-stdout-lines" || strings.HasPrefix(c.Mode, "blank-output")) {
 					c.mustErr = true
 				}
 				cases = append(cases, c)
